@@ -158,10 +158,12 @@ class Ctx:
         g, dist = m[-1]
         return int(g), int(dist)
 
-    def tlc_mc(self, module, cfg, workers="auto", timeout=900, must_hold=True, extra=(), coverage=False):
+    def tlc_mc(self, module, cfg, workers="auto", timeout=900, must_hold=True, extra=(), coverage=None):
         """Exhaustive model check.  Returns dict(ok, generated, distinct, violated, out)."""
         d = self._tlc_dir()
         ex = list(extra)
+        if coverage is None:
+            coverage = self.thorough() and must_hold      # vacuity audit in the thorough tier (about 2x time)
         if coverage:
             ex += ["-coverage", "1"]
         rc, out, dt = self._run_tlc(d, module, cfg, workers, timeout, ex)
@@ -176,7 +178,11 @@ class Ctx:
         ok = (rc == 0 and "Model checking completed. No error has been found." in out)
         res = dict(module=module, cfg=cfg, ok=ok, generated=g, distinct=dist, violated=violated,
                    wall_s=round(dt, 1), dir=d, rc=rc)
-        self.mc_runs.append({k: res[k] for k in ("module", "cfg", "ok", "generated", "distinct", "violated", "wall_s")})
+        if coverage:
+            acts = re.findall(r"^<(\w+) line \d+, col \d+ to line \d+, col \d+ of module (\w+)>: (\d+):(\d+)", out, re.M)
+            res["action_coverage"] = {"%s!%s" % (m, a): int(gen) for a, m, dst, gen in acts}
+            res["actions_never_taken"] = sorted(k for k, v in res["action_coverage"].items() if v == 0)
+        self.mc_runs.append({k: res[k] for k in ("module", "cfg", "ok", "generated", "distinct", "violated", "wall_s", "action_coverage", "actions_never_taken") if k in res})
         self.states += dist
         self.transitions += g
         if not ok and not violated:
